@@ -15,6 +15,7 @@ HERE = os.path.dirname(os.path.abspath(__file__))
 VERIF = os.path.dirname(HERE)
 EXTRACTORS = ["p21rw", "attrnull", "stepfile", "enums"]
 CLASSES = ["top", "aftval", "agg", "agg2", "sel", "cx"]
+GOOD_CLASSES = ["top", "aftval", "agg", "agg2"]
 NAMED_COMMENTS = {"plain": "/* c */", "empty": "/**/", "stars": "/* a * b / c */", "semicolon": "/*#9=X(1);*/",
                   "multiline": "/*\n multi\n line */", "delims": "/* ,) */", "quote": "/* it's */", "hash": "/* #3 */"}
 
@@ -89,7 +90,9 @@ def gen_cases(ctx, lib, n, allowed_classes):
         elif mode == 3:
             lay, tag = Layout(rng.randrange(1 << 30), comment_classes=("top",)), "comments:top"
         else:
-            cc = tuple(c for c in CLASSES if c in allowed_classes and rng.random() < 0.6) or ("top",)
+            # mode 4: the gap classes in which the property holds; mode 5: all classes (the known findings are re-checked)
+            pool = GOOD_CLASSES if mode == 4 else CLASSES
+            cc = tuple(c for c in pool if c in allowed_classes and rng.random() < 0.6) or ("top",)
             if rng.random() < 0.5:
                 pop = W.respell(rng, lib.schema, pop)
                 resp = True
